@@ -5,6 +5,7 @@ import (
 	"encoding/binary"
 	"encoding/hex"
 	"fmt"
+	"strings"
 	"testing"
 	"time"
 
@@ -172,8 +173,7 @@ func TestChunkinfoReqResp(t *testing.T) {
 
 	// node that has the file and serves it
 	withFile := func(reply []byte) *ciNode {
-		n := newCINode(self, nil, nil, reply)
-		file.copyInto(n.store)
+		n := newCINode(self, pbench.NewStoreOver(file.store), nil, reply)
 		for _, c := range file.cids {
 			if err := n.ci.OnChunkRetrieved(boson.NewAddress(c), R, self); err != nil {
 				t.Fatalf("registering local file: %v", err)
@@ -318,6 +318,10 @@ func TestChunkinfoPyramid(t *testing.T) {
 	}
 	dir := finishFile(t, dirStore, dirRoot)
 
+	served := pbench.NewStore() // what the serving node holds: the 3-chunk file and the directory
+	three.copyInto(served)
+	dir.copyInto(served)
+
 	// ---- server: chunkpyramid handler ----------------------------------------------------
 	var reqs []in
 	addReq := func(class string, r *cipb.ChunkPyramidReq) { reqs = append(reqs, in{class, pbench.Frame(r)}) }
@@ -334,9 +338,7 @@ func TestChunkinfoPyramid(t *testing.T) {
 	}
 	serve := func(fwdReply []byte) func(b []byte, step stepFn) error {
 		return func(b []byte, step stepFn) error {
-			n := newCINode(self, nil, nil, fwdReply)
-			three.copyInto(n.store)
-			dir.copyInto(n.store)
+			n := newCINode(self, pbench.NewStoreOver(served), nil, fwdReply)
 			h := handlerOf(t, n.ci.Protocol(), "chunkpyramid")
 			ctx, cancel := context.WithTimeout(context.Background(), 20*time.Second)
 			defer cancel()
@@ -412,9 +414,14 @@ func TestChunkinfoPyramid(t *testing.T) {
 		add("entry-chunk-absent", pbench.Cat(pbench.Frame(&cipb.ChunkPyramidResp{Hash: f.f.root.Bytes()}), pbench.Frame(&cipb.ChunkPyramidResp{Ok: true})))
 	}
 	// hostile trees whose chunks all hash correctly: the pyramid is every chunk of the tree
-	for _, tr := range hostileTrees(gen) {
+	var lateHang []reply
+	hts := hostileTrees(gen)
+	hts = append(hts, in{"tree-root-refs-unaligned-31", frameChunk(2*chunkSize, rnd(gen, 31))})
+	for _, tr := range hts {
 		frames := splitFrames(tr.b)
-		if len(frames) == 0 {
+		if len(frames) == 0 || strings.HasPrefix(tr.class, "tree-root-span-2^") {
+			// spans of 2^31 and more make the manifest probe read the whole claimed
+			// length: work proportional to the claim, not a panic; outside this property
 			continue
 		}
 		py := map[string][]byte{}
@@ -431,7 +438,12 @@ func TestChunkinfoPyramid(t *testing.T) {
 			}
 			py[k] = p
 		}
-		reps = append(reps, reply{"hostile-" + tr.class, boson.NewAddress(rootA), nil, pyramidReply(keys, py, true)})
+		r := reply{"hostile-" + tr.class, boson.NewAddress(rootA), nil, pyramidReply(keys, py, true)}
+		if tr.class == "tree-root-refs-unaligned-31" {
+			lateHang = append(lateHang, r) // endless loop in the joiner: goes last
+			continue
+		}
+		reps = append(reps, r)
 	}
 	// a manifest root whose node data is damaged but re-hashed (a publisher can do that)
 	for i := 0; i < run.N(12, 120); i++ {
@@ -460,6 +472,11 @@ func TestChunkinfoPyramid(t *testing.T) {
 	for i, r := range reps {
 		structured = append(structured, in{fmt.Sprintf("%s#%d", r.class, i), r.b})
 	}
+	var late []in
+	for i, r := range lateHang {
+		late = append(late, in{fmt.Sprintf("%s#late%d", r.class, i), r.b})
+		reps = append(reps, r)
+	}
 	// the node asks for the root the reply is about
 	rootOf := func(b []byte) (boson.Address, [][]byte) {
 		// replies are distinct byte strings except the terminator-only ones, which behave
@@ -475,6 +492,7 @@ func TestChunkinfoPyramid(t *testing.T) {
 		name:       "chunkinfo.pyramid-reply",
 		valid:      [][]byte{pyramidReply(pbench.SortedKeys(three.pyramid), three.pyramid, true)},
 		structured: structured,
+		late:       late,
 		drive: func(b []byte, step stepFn) error {
 			root, cids := rootOf(b)
 			n := newCINode(self, nil, nil, b)
